@@ -1,4 +1,4 @@
-CONSTANTS NA = 4  Assets = {"nria", "alt", "big"}  BigCap = 3  Profile = "fees"  MaxTxs = 2
+CONSTANTS NA = 4  Assets = {"nria", "alt", "big"}  BigCap = 3  Profile = "fees"  MaxTxs = 2  BlockMode = FALSE
 INIT Init
 NEXT Next
 INVARIANTS TypeOK
